@@ -46,6 +46,11 @@ CONSTANTS
   Shared,      \* TRUE: all producers push through ONE handle held in an Arc; FALSE: one clone each
   NoDrop,      \* producers that keep their handle alive until teardown
   UseStop,     \* TRUE: a stopper thread calls SampleStreamTrack::stop()
+  Variant,     \* "track": SampleStreamSource / SampleStreamTrack (track.rs)
+               \* "chan":  SampleQueueSender / SampleQueueReceiver (pipeline.rs) -- same ring, same Notify; one sender
+               \*          shared through an Arc (Shared = TRUE, no clone op, no sender count), no ended flag / stop(),
+               \*          recv() = lock, pop, closed? | notified(), is_empty && !closed ? await; Receiver::drop closes
+  CMax,        \* "chan": the consumer drops the receiver after CMax recv() calls (0 = it goes on until end-of-stream)
   Deviations
 
 VARIABLES
@@ -72,8 +77,9 @@ ghostv == <<created, freed, dropped, received, cres, err, torn, stopped>>
 vars   == <<ringv, lockv, srcv, notv, pc, loc, ghostv, who>>
 view   == <<ringv, lockv, srcv, notv, pc, loc, ghostv>>
 
+Chan        == Variant = "chan"
 Locked      == "UnserialisedProducers" \notin Deviations
-NotifBefore == "NotifiedAfterCheck" \notin Deviations
+NotifBefore == Chan \/ "NotifiedAfterCheck" \notin Deviations      \* pipeline.rs always had this right
 ClosedFirst == "ClosedCheckAfterPop" \notin Deviations
 
 Loc0 == [lt |-> 0, lh |-> 0, ph |-> 0, pt |-> 0, got |-> 0, cur |-> 0, phase |-> 0, mleft |-> 0,
@@ -194,6 +200,9 @@ PushLh(p) ==
          lr   == [L(p) EXCEPT !.lh = head] IN
      IF ~full
      THEN /\ SetLoc(p, lr) /\ Goto(p, "push_w") /\ UNCHANGED <<freed, err, dropped>>
+     ELSE IF Op(p) = "try" /\ Chan /\ Locked
+     THEN \* SampleQueueSender::try_send hands the sample back (Err(sample)): it is still alive while the guard drops
+          /\ AfterPush(p, lr, "WouldBlock") /\ UNCHANGED <<freed, err, dropped>>
      ELSE IF Op(p) = "try"
      THEN /\ Free({lr.cur}) /\ dropped' = dropped \cup {lr.cur}
           /\ AfterPush(p, [lr EXCEPT !.cur = 0], "WouldBlock")
@@ -251,8 +260,9 @@ SrcPopunlock(p) ==
 SrcUnlock(p) ==
   /\ p \in Prods /\ pc[p] = "src_unlock"
   /\ plock' = 0
-  /\ Return(p, L(p), L(p).res)
-  /\ UNCHANGED <<ringv, poplock, srcv, notv, ghostv>>
+  /\ Free({L(p).cur}) /\ dropped' = dropped \cup ({L(p).cur} \ {0})        \* a sample handed back to the caller
+  /\ Return(p, [L(p) EXCEPT !.cur = 0], L(p).res)
+  /\ UNCHANGED <<ringv, poplock, srcv, notv, created, received, cres, torn, stopped>>
 
 ---------------------------------------------------------------------------
 (* SpscRing::pop -- by the consumer (inside recv) or by a producer (drop-oldest) *)
@@ -266,8 +276,9 @@ PopLh(p) ==
 PopLt(p) ==
   /\ pc[p] = "pop_lt"
   /\ IF L(p).ph = tail
-     THEN IF p = C THEN /\ SetLoc(p, [L(p) EXCEPT !.pt = tail])
-                        /\ Goto(p, IF ~ClosedFirst THEN "r_closed" ELSE IF L(p).cl THEN "r_setended" ELSE "r_unlock")
+     THEN IF p = C THEN /\ SetLoc(p, [L(p) EXCEPT !.pt = tail, !.eos = (Chan /\ ClosedFirst /\ L(p).cl)])
+                        /\ Goto(p, IF ~ClosedFirst THEN "r_closed"
+                                   ELSE IF L(p).cl /\ ~Chan THEN "r_setended" ELSE "r_unlock")
                    ELSE SetLoc(p, [L(p) EXCEPT !.pt = tail, !.phase = 1]) /\ Goto(p, "push_lt")
      ELSE SetLoc(p, [L(p) EXCEPT !.pt = tail]) /\ Goto(p, "pop_r")
   /\ UNCHANGED <<ringv, lockv, srcv, notv, ghostv>>
@@ -314,7 +325,7 @@ HRelease(p) ==
   /\ LET lr == [L(p) EXCEPT !.hmode = "own"] IN
      IF L(p).hmode = "arc"
      THEN /\ arc' = arc - 1
-          /\ IF arc = 1 THEN Goto(p, "drop_sub") /\ SetLoc(p, lr) ELSE AfterDrop(p, lr)
+          /\ IF arc = 1 THEN Goto(p, IF Chan THEN "drop_close" ELSE "drop_sub") /\ SetLoc(p, lr) ELSE AfterDrop(p, lr)
      ELSE /\ Goto(p, "drop_sub") /\ SetLoc(p, lr) /\ UNCHANGED arc
   /\ UNCHANGED <<ringv, lockv, closed, ended, active, notv, ghostv>>
 
@@ -339,21 +350,35 @@ DropNotify(p) ==
 ---------------------------------------------------------------------------
 (* consumer: SampleStreamTrack::recv *)
 
-LoopTop == IF NotifBefore THEN "r_create" ELSE "r_ended"
+LoopTop == IF Chan THEN "r_lock" ELSE IF NotifBefore THEN "r_create" ELSE "r_ended"
 
 CRet(r) ==
   /\ cres' = r
   /\ Goto(C, IF r = "eos" THEN "done" ELSE "call")
 
+\* L(C).k counts the recv() calls made so far
 CCall ==
   /\ pc[C] = "call"
-  /\ Goto(C, LoopTop) /\ SetLoc(C, [L(C) EXCEPT !.got = 0, !.eos = FALSE, !.cl = FALSE])
+  /\ IF Chan /\ CMax > 0 /\ L(C).k = CMax
+     THEN Goto(C, "rdrop_close") /\ UNCHANGED loc                         \* drop(receiver)
+     ELSE Goto(C, LoopTop) /\ SetLoc(C, [L(C) EXCEPT !.got = 0, !.eos = FALSE, !.cl = FALSE, !.k = @ + 1])
   /\ UNCHANGED <<ringv, lockv, srcv, notv, ghostv>>
+
+\* Drop for SampleQueueReceiver
+RDropClose ==
+  /\ pc[C] = "rdrop_close"
+  /\ closed' = TRUE /\ Goto(C, "rdrop_notify")
+  /\ UNCHANGED <<ringv, lockv, ended, active, arc, notv, loc, ghostv>>
+
+RDropNotify ==
+  /\ pc[C] = "rdrop_notify"
+  /\ NotifyWaiters /\ Goto(C, "done")
+  /\ UNCHANGED <<ringv, lockv, srcv, loc, ghostv>>
 
 \* let notified = self.notify.notified();
 RCreate ==
   /\ pc[C] = "r_create"
-  /\ cgen' = gen /\ Goto(C, "r_ended")
+  /\ cgen' = gen /\ Goto(C, IF Chan THEN "empty" ELSE "r_ended")
   /\ UNCHANGED <<ringv, lockv, srcv, permit, gen, waiting, loc, ghostv>>
 
 REnded ==
@@ -372,7 +397,8 @@ RClosed ==
   /\ pc[C] = "r_closed"
   /\ IF ClosedFirst
      THEN Goto(C, "pop_lh") /\ SetLoc(C, [L(C) EXCEPT !.cl = closed])
-     ELSE Goto(C, IF closed THEN "r_setended" ELSE "r_unlock") /\ UNCHANGED loc
+     ELSE /\ Goto(C, IF closed /\ ~Chan THEN "r_setended" ELSE "r_unlock")
+          /\ SetLoc(C, [L(C) EXCEPT !.eos = (Chan /\ closed)])               \* "chan": return None
   /\ UNCHANGED <<ringv, lockv, srcv, notv, ghostv>>
 
 RSetEnded ==
@@ -394,23 +420,25 @@ RUnlock ==
           /\ CRet("ok")
      ELSE IF L(C).eos
      THEN CRet("eos") /\ UNCHANGED <<loc, received, freed, err>>
-     ELSE Goto(C, "r_await") /\ UNCHANGED <<loc, received, freed, err, cres>>
+     ELSE Goto(C, IF Chan THEN "r_create" ELSE "r_await") /\ UNCHANGED <<loc, received, freed, err, cres>>
   /\ UNCHANGED <<ringv, plock, srcv, notv, created, dropped, torn, stopped>>
+
+AfterAwait == IF Chan THEN "r_lock" ELSE "r_recheck"
 
 \* notified.await -- first poll (the pinned code also creates the future here)
 RAwait ==
   /\ pc[C] = "r_await"
   /\ IF NotifBefore /\ gen # cgen
-     THEN Goto(C, "r_recheck") /\ UNCHANGED notv
+     THEN Goto(C, AfterAwait) /\ UNCHANGED notv
      ELSE IF permit
-     THEN Goto(C, "r_recheck") /\ permit' = FALSE /\ cgen' = gen /\ UNCHANGED <<gen, waiting>>
+     THEN Goto(C, AfterAwait) /\ permit' = FALSE /\ cgen' = gen /\ UNCHANGED <<gen, waiting>>
      ELSE Goto(C, "c_sleep") /\ waiting' = TRUE /\ cgen' = gen /\ UNCHANGED <<permit, gen>>
   /\ UNCHANGED <<ringv, lockv, srcv, loc, ghostv>>
 
 \* the waker fired; the future is polled again and completes
 CSleep ==
   /\ pc[C] = "c_sleep" /\ ~waiting
-  /\ Goto(C, "r_recheck")
+  /\ Goto(C, AfterAwait)
   /\ UNCHANGED <<ringv, lockv, srcv, notv, loc, ghostv>>
 
 \* if self.source_closed.load() && self.queue.is_empty() {
@@ -419,9 +447,11 @@ RRecheck ==
   /\ Goto(C, IF closed THEN "empty" ELSE LoopTop)
   /\ UNCHANGED <<ringv, lockv, srcv, notv, loc, ghostv>>
 
+\* track: `closed && is_empty()`; chan: `is_empty() && !closed.load()` then await (one step, see the header)
 Empty ==
   /\ pc[C] = "empty"
-  /\ Goto(C, IF head = tail THEN "r_setended" ELSE LoopTop)
+  /\ Goto(C, IF Chan THEN (IF head = tail /\ ~closed THEN "r_await" ELSE LoopTop)
+             ELSE IF head = tail THEN "r_setended" ELSE LoopTop)
   /\ UNCHANGED <<ringv, lockv, srcv, notv, loc, ghostv>>
 
 ---------------------------------------------------------------------------
@@ -470,7 +500,7 @@ ProdStep(p) ==
 
 ConsStep ==
   \/ CCall \/ RCreate \/ REnded \/ RLock \/ PopLh(C) \/ PopLt(C) \/ PopR(C) \/ PopSh(C)
-  \/ RClosed \/ RSetEnded \/ RUnlock \/ RAwait \/ CSleep \/ RRecheck \/ Empty
+  \/ RClosed \/ RSetEnded \/ RUnlock \/ RAwait \/ CSleep \/ RRecheck \/ Empty \/ RDropClose \/ RDropNotify
 
 StopStep == SCall \/ StopStore \/ StopNotify
 
